@@ -272,7 +272,7 @@ def enum_e3():
 
 def go_env():
     e = dict(os.environ)
-    e.update({"GOPROXY": "off", "GOSUMDB": "off", "GOTOOLCHAIN": "local", "GOFLAGS": "-mod=mod"})
+    e.update({"GOPROXY": "off", "GOSUMDB": "off", "GOTOOLCHAIN": "local", "GOFLAGS": "-mod=mod -trimpath"})
     return e
 
 
